@@ -154,6 +154,12 @@ fn round_trip(t: &Expr) -> Trip {
     }
 }
 
+/// The rendering requested with formatting flags (width, alignment, precision, sign, alternate, zero padding): whatever Display does
+/// with them, the text must still parse back to the same expression ("printing never changes ... literal values")
+fn flagged_renderings(t: &Expr) -> Vec<(&'static str, String)> {
+    vec![("{:12}", format!("{t:12}")), ("{:>60}", format!("{t:>60}")), ("{:^9}", format!("{t:^9}")), ("{:.2}", format!("{t:.2}")), ("{:9.1}", format!("{t:9.1}")), ("{:+}", format!("{t:+}")), ("{:#}", format!("{t:#}")), ("{:08}", format!("{t:08}")), ("{:-<7.0}", format!("{t:-<7.0}"))]
+}
+
 fn smallest_failing(t: &Expr) -> &Expr {
     for c in children(t) {
         if matches!(round_trip(c), Trip::Fail { .. }) {
@@ -252,6 +258,24 @@ fn judge(ctx: &mut Ctx, built: &Expr, family: &str, rng: &mut Rng) {
                 ctx.hit("evaluated-both");
                 if show_obs(&a) != show_obs(&b) {
                     ctx.violation(format!("C16 evaluates-differently {}", describe(&t)), "a tree and its re-parsed rendering evaluate differently".to_string(), json!({"text": text, "a": show_obs(&a), "b": show_obs(&b)}));
+                }
+            }
+            // the rendering requested with formatting flags (small trees only: the flags may multiply the text)
+            if ctx.evaluations % 8 == 1 && t.to_string().len() < 400 {
+                if let Ok(fl) = guard(|| flagged_renderings(&t)) {
+                    for (spec, r) in fl {
+                        ctx.hit("rendered-with-format-flags");
+                        match guard(|| Expr::parse(&r)) {
+                            Ok(Ok(back)) if back == t => {}
+                            other => {
+                                let how = match other { Ok(Ok(_)) => "reparsed-to-different-tree", Ok(Err(_)) => "rendering-does-not-parse", Err(_) => "parser-panicked-on-rendering" };
+                                ctx.violation(format!("C16 {how} with format flags {spec}"), format!("the rendering requested with {spec} does not parse back to the expression"), json!({"source_text": clip(text.clone(), 300), "rendering": clip(r, 400), "plain_rendering": clip(t.to_string(), 300)}));
+                                break;
+                            }
+                        }
+                    }
+                } else {
+                    ctx.violation("C16 display-panicked with format flags".to_string(), "Display panicked when formatting flags were given".to_string(), json!({"source_text": clip(text.clone(), 300)}));
                 }
             }
             ctx.sample(family, || json!({"source": clip(text.clone(), 150), "rendering": clip(t.to_string(), 200)}));
